@@ -107,7 +107,7 @@ impl Prop for C05 {
     type Case = DlCase;
     fn id(&self) -> &'static str { "C05" }
     fn expected_counters(&self) -> Vec<&'static str> { vec!["fault.fact_and_rule_order_permuted", "fault.pool_split_into_several_jobs", "fault.jobs_run_out_of_index_order", "probe.nested_parallel_call", "probe.program_derives_facts", "probe.rule_with_3plus_premises", "probe.over_1000_facts_hash_join_chunks", "probe.negative_stratum"] }
-    fn budget(&self, tier: Tier) -> Budget { match tier { Tier::Quick => Budget { runs: 4000, wall_s: 60, recheck: 30 }, Tier::Thorough => Budget { runs: 150_000, wall_s: 1200, recheck: 100 } } }
+    fn budget(&self, tier: Tier) -> Budget { match tier { Tier::Quick => Budget { runs: 4000, wall_s: 60, recheck: 30 }, Tier::Thorough => Budget { runs: 150_000, wall_s: 1000, recheck: 100 } } }
     fn hash_seed(&self, c: &DlCase) -> u64 { c.hash_seed }
     fn gen(&self, seed: u64, _i: u64, tier: Tier) -> DlCase {
         let mut r = Rng::sub(seed, "workload"); let mut cfg = Rng::sub(seed, "swarm"); let mut pr = Rng::sub(seed, "perturb");
@@ -215,7 +215,7 @@ impl Prop for C19 {
     type Case = RepCase;
     fn id(&self) -> &'static str { "C19" }
     fn expected_counters(&self) -> Vec<&'static str> { vec!["probe.several_maximal_repairs", "fault.hash_seed_execution", "probe.answers_survive_conflict"] }
-    fn budget(&self, tier: Tier) -> Budget { match tier { Tier::Quick => Budget { runs: 2500, wall_s: 60, recheck: 30 }, Tier::Thorough => Budget { runs: 100_000, wall_s: 1500, recheck: 100 } } }
+    fn budget(&self, tier: Tier) -> Budget { match tier { Tier::Quick => Budget { runs: 2500, wall_s: 60, recheck: 30 }, Tier::Thorough => Budget { runs: 100_000, wall_s: 1000, recheck: 100 } } }
     fn hash_seed(&self, c: &RepCase) -> u64 { c.hash_seeds.first().copied().unwrap_or(0) }
     fn gen(&self, seed: u64, _i: u64, tier: Tier) -> RepCase {
         let mut r = Rng::sub(seed, "workload"); let mut cfg = Rng::sub(seed, "swarm"); let mut hs = Rng::sub(seed, "hash");
@@ -325,7 +325,7 @@ impl Prop for C12 {
     type Case = SdsCase;
     fn id(&self) -> &'static str { "C12" }
     fn expected_counters(&self) -> Vec<&'static str> { vec!["probe.rearrival_renews_alive_triple", "probe.renewal_raised_derived_expiry", "probe.derived_fact_lost_support", "probe.evaluation_after_total_expiry"] }
-    fn budget(&self, tier: Tier) -> Budget { match tier { Tier::Quick => Budget { runs: 20_000, wall_s: 60, recheck: 30 }, Tier::Thorough => Budget { runs: 600_000, wall_s: 1500, recheck: 100 } } }
+    fn budget(&self, tier: Tier) -> Budget { match tier { Tier::Quick => Budget { runs: 20_000, wall_s: 60, recheck: 30 }, Tier::Thorough => Budget { runs: 600_000, wall_s: 1000, recheck: 100 } } }
     fn hash_seed(&self, c: &SdsCase) -> u64 { c.hash_seed }
     fn gen(&self, seed: u64, _i: u64, _tier: Tier) -> SdsCase {
         let mut r = Rng::sub(seed, "workload"); let mut cfg = Rng::sub(seed, "swarm");
